@@ -494,6 +494,23 @@ func checkC05(c *Ctx, n int) {
 		}
 		cs := &Case{Name: "app", NsDelim: ".", EnvNsDelim: envDelim, Env: env}
 		cs.Build = []BuildOp{{Kind: "addgroup", Target: 1, Short: "Application Options", Struct: top}}
+		// where the options are declared: on the parser, in the command the line selects, or in a
+		// command it does not select (a sibling is named, or none) - defaults and environment apply
+		// to every option of every command
+		where := []string{"parser", "parser", "selected-command", "sibling-selected", "no-command"}[r.Intn(5)]
+		if where != "parser" {
+			root := &StructDesc{Fields: []FieldDesc{
+				{Name: "Ca", Exported: true, Kind: "s", Sub: top, Tag: quoteTag("command", "ca")},
+				{Name: "Cb", Exported: true, Kind: "s", Sub: &StructDesc{}, Tag: quoteTag("command", "cb")}}}
+			cs.Build = []BuildOp{{Kind: "addgroup", Target: 1, Short: "Application Options", Struct: root},
+				{Kind: "setcmd", Target: 1, Attr: "subopt", Vals: []string{"1"}}}
+			for _, po := range opts {
+				po.ini = nil
+				if where != "selected-command" {
+					po.cli = nil
+				}
+			}
+		}
 		var ini strings.Builder
 		var argv []string
 		for _, po := range opts {
@@ -520,6 +537,12 @@ func checkC05(c *Ctx, n int) {
 				}
 			}
 		}
+		switch where {
+		case "selected-command":
+			argv = append([]string{"ca"}, argv...)
+		case "sibling-selected":
+			argv = []string{"cb"}
+		}
 		order := []string{"ini,cli", "inidef,cli", "cli,inidef"}[r.Intn(3)]
 		switch order {
 		case "ini,cli":
@@ -532,7 +555,7 @@ func checkC05(c *Ctx, n int) {
 		cs.Description = "precedence " + order + ": " + describeOps(cs)
 		c.RunCases([]*Case{cs}, func(cr *CaseResult) {
 			c.classifyCase(cr)
-			c.Class("c05/" + order)
+			c.Class("c05/" + order + " declared-in=" + where)
 			c.Distinct(cr.Case.Description)
 			if firstLine(cr.Impl, "PANIC") != "" || firstLine(cr.Impl, "INI ") != "INI ok" || !strings.HasPrefix(firstLine(cr.Impl, "RET "), "RET ok") {
 				c.Check("precedence-case-runs", false, "C05:precedence-case-failed", map[string]interface{}{"case": cs.Description, "case_file": c.saveCase(cr)},
@@ -548,6 +571,9 @@ func checkC05(c *Ctx, n int) {
 			}
 			for j, po := range opts {
 				ref := fmt.Sprintf("1.%d.%d", gi, j)
+				if where != "parser" {
+					ref = cr.Real.optRef[po.field]
+				}
 				exp := po.expected(order)
 				want := showExpected(po.code, exp, !po.hasInit)
 				got := vals[ref]
@@ -555,7 +581,7 @@ func checkC05(c *Ctx, n int) {
 					got = want
 				}
 				ok := got == want
-				in := map[string]interface{}{"case": cs.Description, "option": po.name, "sources": fmt.Sprintf("init=%v default=%v env(set=%v)=%v ini=%v cli=%v", po.init, po.def, po.envSet, po.env, po.ini, po.cli), "order": order}
+				in := map[string]interface{}{"case": cs.Description, "option": po.name, "sources": fmt.Sprintf("init=%v default=%v env(set=%v)=%v ini=%v cli=%v", po.init, po.def, po.envSet, po.env, po.ini, po.cli), "order": order, "declared_in": where}
 				if !ok {
 					in["case_file"] = c.saveCase(cr)
 				}
